@@ -239,6 +239,18 @@ fn handle(line: &str) -> String {
                 Err(_) => "err".to_string(),
             }
         }
+        "with_file_build" => {
+            // <hex destination>: with_file on an existing source file, then build()
+            let dest = unhex(p[1]);
+            let src = std::env::current_exe().unwrap();
+            match rpm::PackageBuilder::new("x", "1.0", "MIT", "noarch", "d").compression(rpm::CompressionType::None).with_file(&src, rpm::FileOptions::new(dest)) {
+                Ok(b) => match b.build() {
+                    Ok(_) => "ok".to_string(),
+                    Err(_) => "build-err".to_string(),
+                },
+                Err(_) => "err".to_string(),
+            }
+        }
         "wsink" => {
             // <k> <fail_at> <intr_at> <package|metadata>: write a freshly built package into a scripted sink; every failure position is tried
             let k: usize = p[1].parse().unwrap_or(0);
